@@ -693,7 +693,8 @@ func (st *Runtime) evalPrimaryExpressionGroup(node Expression) reflect.Value {
 		return st.evalPrimaryExpressionGroup(node.Right)
 	case NodeCallExpr:
 		node := node.(*CallExprNode)
-		baseExpr := st.evalBaseExpressionGroup(node.BaseExpr)
+		// the parser also accepts index and call expressions as call targets: m["Method"](), f()()
+		baseExpr := st.evalPrimaryExpressionGroup(node.BaseExpr)
 		if baseExpr.Kind() != reflect.Func {
 			node.errorf("node %q is not func kind %q", node.BaseExpr, baseExpr.Type())
 		}
